@@ -8,7 +8,7 @@ def fnv32 (s : String) : Nat :=
   (s.toUTF8.toList.foldl (fun h b => ((Nat.xor h b.toNat) * 0x100000001b3) % 18446744073709551616) 0xcbf29ce484222325) % 4294967296
 
 def origPollsOf : Nat → Nat
-  | 0 => 2 | 1 => 2 | 2 => 1 | 3 => 2 | 4 => 1 | _ => 2
+  | 0 => 2 | 1 => 2 | 2 => 1 | 3 => 2 | 4 => 1 | 5 => 2 | _ => 2
 
 def origValue (i arg : Nat) : Nat :=
   match i with
@@ -17,7 +17,8 @@ def origValue (i arg : Nat) : Nat :=
   | 2 => arg + 2
   | 3 => fnv32 ("ARG" ++ toString arg)
   | 4 => 1000 + arg * 2
-  | _ => arg * 1000 + fnv32 ("orig" ++ toString arg) % 1000
+  | 5 => arg * 1000 + fnv32 ("orig" ++ toString arg) % 1000
+  | _ => if arg % 2 == 0 then 1 else 0
 
 def fakeValue (i site : Nat) : Nat :=
   match i, site with
@@ -27,8 +28,10 @@ def fakeValue (i site : Nat) : Nat :=
   | 2, 0 => 7101 | 2, _ => 7102
   | 3, 0 => fnv32 "fakeA" | 3, _ => fnv32 "fakeB"
   | 4, 0 => 7401 | 4, _ => 7402
-  | _, 0 => 5 * 1000 + fnv32 "fake5" % 1000
-  | _, _ => 6 * 1000 + fnv32 "fake6" % 1000
+  | 5, 0 => 5 * 1000 + fnv32 "fake5" % 1000
+  | 5, _ => 6 * 1000 + fnv32 "fake6" % 1000
+  | _, 0 => 1
+  | _, _ => 0
 
 /-- `async | F1:0 A1:16=1:7001:0:1:0 … D …` -/
 def handleAsync (obs : List String) : Verdict := Id.run do
